@@ -53,6 +53,8 @@ def plan(tier, seed):
     for e in corpus.entries():
         if e["fmt"] == "json_qcschema":
             cases.append({"kind": "json_corpus", "file": e["file"]})
+    # the repository's own test-suite as a workload under monitor M9 (vf/mon/pytest_plugin.py)
+    cases.append({"kind": "suite", "tier": tier, "timeout": 3300})
     return cases
 
 
@@ -320,6 +322,10 @@ def case_json_corpus(case):
 
 
 def run_case(case):
+    if case.get("kind") == "suite":
+        from .. import suite
+
+        return suite.case(['arg-unchanged'], case["tier"])
     fn = {"dump_one": case_dump_one, "dump_many": case_dump_many, "write_input": case_write_input, "json_corpus": case_json_corpus}[case["kind"]]
     res = fn(case)
     if res is None:
